@@ -710,6 +710,7 @@ impl<T: ArrayValue> Array<T> {
                                     );
                                 }
                                 arr.data.as_mut_slice().rotate_right(diff * row_len);
+                                arr.meta.take_sorted_flags();
                             }
                             Err(e) => {
                                 return Err(env
